@@ -62,6 +62,57 @@ def pyarg(cls, cname, c, arg, as_member):
     return arg["v"]
 
 
+def readback(m, name):
+    """The value the attribute presents; an attribute that cannot be read at all is never an allowed value."""
+    try:
+        return val(getattr(m, name))
+    except Exception:
+        return -777777
+
+
+def meta_events(spec):
+    """Assignment through a MetaModule: a user-defined controller mirrors the range of the embedded controller it is
+    mapped to (ranges starting at 0: an assignment is pushed into the embedded module offset by the target's minimum),
+    both under its own name and under the alias derived from its label."""
+    from rv.errors import override_raise_controller_value_errors
+    import rv.api as api
+    cl = classes()
+    events = []
+    for t, st in sorted(spec.items()):
+        cls = cl.get(t)
+        if cls is None or t == "MetaModule":
+            continue
+        for i, c in enumerate(st["ctls"], 1):
+            if c["kind"] != "range" or c["min"] != 0 or (t == "SpectraVoice" and c["name"].startswith("h")):
+                continue
+            lo, hi = c["min"], c["max"]
+            for how, attr in (("meta-attr", "user_defined_1"), ("meta-alias", "u_cut")):
+                for strict in (True, False):
+                    for v in (lo - 1, hi + 1, hi, (lo + hi) // 2, hi + 1):
+                        try:
+                            mm = api.m.MetaModule()
+                            emb = api.Project()
+                            tm = emb.new_module(cls)
+                            mm.project = emb
+                            emb.metamodule = mm
+                            mm.mappings.values[0].module = tm.index
+                            mm.mappings.values[0].controller = i - 1
+                            mm.user_defined_controllers = 1
+                            mm.update_user_defined_controllers()
+                            mm.user_defined[0].label = "cut"
+                            old = readback(mm, attr)
+                        except Exception:
+                            events.append({"op": "set", "t": t, "i": i, "u": 0, "strict": strict, "how": how, "arg": {"k": "int", "v": v, "n": ""},
+                                           "old": 0, "outcome": "exception", "has": False, "got": 0})
+                            continue
+                        with override_raise_controller_value_errors(strict):
+                            out, _ = outcome_of(lambda: setattr(mm, attr, v))
+                        events.append({"op": "set", "t": t, "i": i, "u": 0, "strict": strict, "how": how, "arg": {"k": "int", "v": v, "n": ""},
+                                       "old": old, "outcome": "exception" if out.startswith("exception:") else out, "has": True,
+                                       "got": readback(mm, attr)})
+    return events
+
+
 def history_probe_events(spec):
     """Strict-mode rejection re-probed after the library has been used for loading (a successful load, a load
     that fails, a clone): default strictness must still reject min-1 / max+1 on every fixed range."""
@@ -126,7 +177,7 @@ def set_events(spec, rnd=None):
                                     m = cls(**({uname: u} if uname else {}))
                                     old = val(getattr(m, name))
                                     out, _ = outcome_of(lambda: setattr(m, name, a))
-                                    got, has = val(getattr(m, name)), True
+                                    got, has = readback(m, name), True
                                 else:
                                     kw = {name: a}
                                     if uname:
@@ -134,7 +185,7 @@ def set_events(spec, rnd=None):
                                     old = c["default"]
                                     out, m = outcome_of(lambda: cls(**kw))
                                     has = m is not None
-                                    got = val(getattr(m, name)) if has else 0
+                                    got = readback(m, name) if has else 0
                             if out.startswith("exception:"):
                                 out = "exception"
                             events.append({"op": "set", "t": t, "i": i, "u": u, "strict": strict, "how": how,
